@@ -38,6 +38,9 @@ pub struct Case {
     pub simple: bool,
     pub present_permille: u32,
     pub sink: SinkSpec,
+    /// dynamic dimensions to use in order instead of drawing them (wide and tall matrix parts)
+    #[serde(default)]
+    pub dims_override: Vec<usize>,
 }
 
 #[derive(Clone, Debug, Serialize, Deserialize, PartialEq, Eq, PartialOrd, Ord)]
@@ -63,6 +66,7 @@ pub struct Outcome {
 fn build(case: &Case) -> Option<Subject> {
     let maker = TYPES.iter().find(|(n, _)| *n == case.type_name)?;
     let mut g = GenCtx::new(case.value_seed, case.max_dim, case.simple, case.present_permille);
+    g.dims_override = case.dims_override.clone();
     Some((maker.1)(maker.0, &mut g))
 }
 
@@ -193,6 +197,7 @@ fn cases_for_value(seed: u64, i: u64, thorough: bool) -> Vec<Case> {
         simple: r.chance(50),
         present_permille: [0, 300, 500, 500, 800, 1000][r.below(6)],
         sink: SinkSpec::Fmt(FmtPlan::None),
+        dims_override: vec![],
     };
     // long vector parts, on the types where that is cheap (a vector part, no matrix part): lengths at and just above
     // powers of two, where batched or chunked rendering would change behaviour
@@ -203,6 +208,14 @@ fn cases_for_value(seed: u64, i: u64, thorough: bool) -> Vec<Case> {
     };
     // and larger matrix parts on the two plain matrix-carrying dynamic types (65 x 65, 97 x 97; small integers as entries)
     let base = if matches!(name, "Dual2DVec64" | "HyperDualDVec64") && r.chance(120) { Case { max_dim: [65, 65, 97][r.below(3)], simple: true, ..base } } else { base };
+    // wide and tall matrix parts: many columns and few rows, and the other way round (small integers as entries; the
+    // mixed part of HyperDualDVec64 is rows x columns = first x second dimension)
+    let base = if name == "HyperDualDVec64" && r.chance(450) {
+        let (a, b) = [(2, 200), (200, 2), (3, 300), (2, 1025), (1025, 3), (5, 129)][r.below(6)];
+        Case { dims_override: vec![a, b], simple: true, present_permille: 1000, ..base }
+    } else {
+        base
+    };
     let mut cases = vec![base.clone()];
     let with = |s: SinkSpec| Case { sink: s, ..base.clone() };
     // learn the shape of the fault-free history (number of sink calls) to place faults inside the operation
